@@ -214,6 +214,14 @@ def _typed_sequence(ctx: Ctx, model, base):
                  f"list")
 
 
+    from . import c03
+    ctx.include(c03.run, {"C03-R5"}, "C02-R9",
+                "the attribute lists a typed constructor decodes repeated AVPs into are distinct "
+                "objects, one per list attribute (a shared list makes `avps` / `as_bytes` of the "
+                "decoded message emit every such AVP under each attribute's code)", floor=100,
+                constructs=lambda c: c.endswith("#own-list"))
+
+
 def _registry(ctx: Ctx, model, base, msg):
     ctx.rule("C02-R2", "registry: literal 24-bit codes, unique per registry, modules imported and "
                        "exported, all_commands built after the definitions, base-protocol codes "
@@ -411,19 +419,27 @@ def _dispatch(ctx: Ctx, model, base, msg):
         known = (f"{hname}.command_code", "in-expr", "all_commands", True) in facts
         unknown = (f"{hname}.command_code", "in-expr", "all_commands", False) in facts
         if v == "UndefinedMessage":
-            kinds["generic"] = unknown
+            # every store of the generic class sits where the code is known to be unregistered
+            kinds["generic"] = kinds.get("generic", True) and unknown
         elif ".type_factory(" in v:
-            kinds["factory"] = known and ("plain_msg", "truthy", None, False) in facts \
+            kinds["factory"] = kinds.get("factory", True) and known \
+                and ("plain_msg", "truthy", None, False) in facts \
                 and v.endswith(f".type_factory({hname})")
             ctv = v.split(".type_factory")[0]
         elif isinstance(d.ast.value, ast.Name):
-            fs = [f_ for f_ in facts if f_[0] == tv and f_[1] == "is" and f_[2] is None and f_[3]]
             kinds.setdefault("base", True)
             if not known:
                 kinds["base"] = False
+        else:
+            kinds["other:" + v[:40]] = False
     cd = [n for n in g.nodes if n.kind == "stmt" and isinstance(n.ast, ast.Assign)
           and ast.unparse(n.ast.value) == f"all_commands[{hname}.command_code]"]
-    if not cd or kinds.get("generic") is not True or kinds.get("factory") is not True or not kinds.get("base", False):
+    regvar = A.dotted(cd[0].ast.targets[0]) if cd else None
+    for d in defs:
+        if isinstance(d.ast.value, ast.Name) and d.ast.value.id not in ("UndefinedMessage", regvar):
+            kinds[f"base:{d.ast.value.id}"] = False
+    if not cd or kinds.get("generic") is not True or kinds.get("factory") is not True \
+            or not kinds.get("base", False) or any(v is False for v in kinds.values()):
         ctx.fail(cons, fb.loc(), f"from_bytes class selection is not: all_commands[code] -> "
                  f"type_factory(header) unless plain_msg (falling back to the registered class), "
                  f"UndefinedMessage for unknown codes ({kinds})")
